@@ -14,7 +14,9 @@ from mc.runner import Result, horizon, Horizon
 
 ID = "C04"
 TITLE = "zero resubstitution error"
-RULE = ("SupervisedOPF: every strict ordering of the edge weights (n=3,4; thorough: all 10! for "
+RULE = ("SupervisedOPF: every strict ordering of the edge weights (n=3,4, also with weight tables that are "
+        "nearly equal (gaps 1e-9), huge (1e39) or tiny (1e-46), and with point sets whose distances are "
+        "nearly equal / huge / tiny under euclidean, squared_euclidean, manhattan; thorough: all 10! for "
         "n=5 with the two-class labelings) x every labeling, as a pre-computed matrix, and every "
         "arrangement (ordered subset) of a generic positive point set whose pairwise distances "
         "are distinct under the metric being run, for each of the 40 symmetric non-negative "
@@ -56,6 +58,14 @@ def plan(tier, seed):
     shards = [("strict", 3, 0, 6)]
     for a, b in E.chunks(720, 90):
         shards.append(("strict", 4, a, b))
+    # tie-free weight tables in unusual numerical regimes (distinct as doubles, but nearly equal /
+    # beyond the single-precision range)
+    for tab in ("near", "huge", "tiny"):
+        for a, b in E.chunks(720, 180):
+            shards.append(("strictx", 4, tab, a, b))
+    for regime in ("near", "huge", "tiny"):
+        for mt in ("euclidean", "squared_euclidean", "manhattan"):
+            shards.append(("featx", mt, 4, regime))
     for mt in axioms.dissimilarity_metrics():
         shards.append(("feat", mt, 3))
         shards.append(("feat", mt, 4))
@@ -116,6 +126,17 @@ def programs(shard, seed):
             for lab in E.labelings(n):
                 yield {"model": "SupervisedOPF", "mode": "pre", "W": W,
                        "labels": list(E.rename_classes(lab, seed))}
+    elif kind == "strictx":
+        _, n, tab, a, b = shard
+        ne = n * (n - 1) // 2
+        table = {"near": [1.0 + i * 1e-9 for i in range(ne)],
+                 "huge": [(i + 1) * 1e39 for i in range(ne)],
+                 "tiny": [(i + 1) * 1e-46 for i in range(ne)]}[tab]
+        for ranks in list(itertools.permutations(range(ne)))[a:b]:
+            W = E.matrix_from_ranks(n, ranks, table).tolist()
+            for lab in E.labelings(n):
+                yield {"model": "SupervisedOPF", "mode": "pre", "W": W,
+                       "labels": list(E.rename_classes(lab, seed))}
     elif kind == "strict5":
         _, a, b = shard
         table = E.value_table(seed, 10)
@@ -125,6 +146,20 @@ def programs(shard, seed):
             W = E.matrix_from_ranks(5, ranks, table).tolist()
             for lab in labs:
                 yield {"model": "SupervisedOPF", "mode": "pre", "W": W,
+                       "labels": list(E.rename_classes(lab, seed))}
+    elif kind == "featx":
+        _, metric, n, regime = shard
+        if regime == "near":
+            # all pairwise distances distinct as doubles, but several agree to ~1e-9 relative
+            pts = [(0.0,), (1.0,), (2.0 + 1e-9,), (3.0 + 3e-9,), (4.0 + 6e-9,)]
+        else:
+            sq = metric == "squared_euclidean"
+            sc = {"huge": 1e20 if sq else 1e39, "tiny": 1e-25 if sq else 1e-50}[regime]
+            pts = [(x * sc, y * sc) for x, y in generic_points(seed)[:5]]
+        for arr in itertools.permutations(range(len(pts)), n):
+            X = [list(pts[i]) for i in arr]
+            for lab in E.labelings(n):
+                yield {"model": "SupervisedOPF", "mode": "features", "X": X, "metric": metric,
                        "labels": list(E.rename_classes(lab, seed))}
     elif kind == "feat":
         _, metric, n = shard
@@ -242,7 +277,7 @@ def run(shard, seed):
             res.sample(prog, 1)
         k += 1
         if v:
-            prev = _PREV.get(_key(prog))
+            prev = _PREV.get(_key(prog)) if _key(prog) is not None else None
             if prev is not None and "previous" not in v["program"]:
                 v["program"] = dict(v["program"], previous=prev)
             res.violations.append(v)
